@@ -19,7 +19,7 @@ def natural_static(prog, uid):
             continue
         if op == 'ret':
             return ('ret', ('v', uid, ins[1]))
-        if op == 'raise':
+        if op in ('raise', 'raise_exec'):
             return ('exc', ins[1], ('boom', uid))
         if op == 'recurse':
             if ins[1] >= RECURSION_LIMIT_DEPTH:
@@ -247,6 +247,21 @@ def judge(W):
         if rec.kind in ('imap', 'imap_unordered'):
             judge_imap(W, rec, ex, owners, cause)
             continue
+        if rec.opts.get('builtin'):
+            # the callable is a C function that raises: its own exception must come back, with a usable record
+            want = T.BUILTIN_RAISES[rec.opts['builtin']]
+            got = None
+            if res.ready() and not res._success:
+                got = exc_of(res._value)
+            if got is None or got[0] != want:
+                for cl in ('C12.a', 'C02.a'):
+                    bad(cl, 'builtin-callable-exception-not-delivered',
+                        'job %r (%s): expected %s, outcome %r' % (uid, rec.opts['builtin'], want,
+                                                                  got[0] if got else ('pending' if not res.ready()
+                                                                                      else 'success')))
+            else:
+                check_einfo_builtin(W, rec, got)
+            continue
         if not res.ready():
             abandoned = W.case.get('epilogue') == 'terminate_only' and W.term_calls
             if (W.marks.get('drain_end') or end == 'quiescent') and not abandoned:
@@ -420,8 +435,26 @@ def check_einfo(W, rec, tname, args, exc, einfo):
     if tname not in POOL_MADE and not rec.opts.get('bad_arg') and tname != 'MaybeEncodingError':
         text = einfo.traceback or ''
         # (every exception a task program raises itself comes from a `raise EXC[...]` line of pooltask.py)
-        if 'pooltask.py' not in text or (tname in T.EXC and tname != 'RecursionError' and 'raise EXC[' not in text):
+        generated = rec.kind == 'apply' and any(ins[0] == 'raise_exec' for ins in (rec.prog or ()))
+        if generated:
+            ok_text = 'in generated_fn' in text
+        else:
+            ok_text = not (tname in T.EXC and tname != 'RecursionError' and 'raise EXC[' not in text)
+        if 'pooltask.py' not in text or not ok_text:
             W.bad('C12.a', 'traceback-text-lacks-raising-frame', 'job %r: %.200r' % (rec.uid, text[-300:]))
+
+
+def check_einfo_builtin(W, rec, got):
+    tname, args, exc, einfo = got
+    if not hasattr(einfo, 'traceback'):
+        W.bad('C12.a', 'no-exception-record:%s' % rec.kind, 'job %r: value %r' % (rec.uid, einfo))
+        return
+    try:
+        ''.join(_tb.format_exception(einfo.type, exc, einfo.tb))
+    except Exception as e:       # noqa
+        W.bad('C12.b', 'tb-not-formattable:%s' % tname, 'job %r: %r' % (rec.uid, e))
+    if einfo.type is None or einfo.type.__name__ != tname:
+        W.bad('C12.a', 'type-mismatch', 'job %r: record type %r, exception %s' % (rec.uid, einfo.type, tname))
 
 
 def judge_imap(W, rec, ex, owners, cause):
@@ -499,7 +532,7 @@ def _cause_ok(exc):
 def judge_C02(W, ex):
     bad = W.bad
     for uid, rec in W.jobs.items():
-        if not rec.returned_handle or rec.discarded or rec.after_close:
+        if not rec.returned_handle or rec.discarded or rec.after_close or rec.opts.get('builtin'):
             continue
         obs = [o for o in rec.observed if o[1] != 'timeout']
         if rec.kind == 'apply':
@@ -638,7 +671,7 @@ def judge_C03(W, ex):
                         % (pid, args[:2], pend and pend[:2]))
                 else:
                     rec = W.job_by_id.get(args[0])
-                    if rec is not None:
+                    if rec is not None and not rec.opts.get('builtin'):
                         # the program ran between the two messages, in this worker
                         uids = [rec.uid] if rec.kind == 'apply' else [it[0] for it in rec.items]
                         ran = [b for b in begin_by_pid.get(pid, ()) if pend[2] <= b[0] <= step and b[1] in uids]
@@ -1067,6 +1100,12 @@ def judge_C08(W, ex):
         elif p.status[0] == 'exit' and 'on_exit' not in p.info and p.status != ('exit', 70):
             bad('C08.s', 'exit-callback-not-run', 'worker %d got signal %d, exited %r without running on_exit'
                 % (pid, sig, p.status))
+        t_sig = w.get('term_delivered_at')
+        if p.dead and t_sig is not None and p.death_time is not None and p.death_time - t_sig > 10.0 and \
+                W.case['prop'] == 'C08':
+            # "promptly": the exit path costs about a second; half a minute means it waited for something
+            bad('C08.s', 'signalled-worker-lingered:%s' % guard_cause(W, pid),
+                'worker %d got signal %d and exited %.1fs later' % (pid, sig, p.death_time - t_sig))
 
 
 # ---------------------------------------------------------------------- C09
